@@ -126,6 +126,7 @@ def ident_case(gi, p1, p2, v0, v1, v2, extra):
 
 NAMES_SETUP = '''
 import dataclasses
+from typing import Any
 from adaptix.conversion import get_converter
 CLASS_NAMES = ["A", "A2", "A\\u00b2", "A-B", "A B", "1A", "A'", 'A"', "A{x}", "A\\\\", "A\\n", "\\u00e9", "A.B", "A[0]", "A$", "def", "A\\u0660", "A\\u2460", "_", "A\\u00aa",
                "data", "ctx", "coercer", "constructor", "errors", "result", "self", "src", "dst", "convert", "model_identity"]
@@ -206,6 +207,15 @@ for _gn in GEN_NAMES:
                           lambda a, D=_D2: D(a, GMARK, a + 7)))
     except Exception as _e:
         NAME_ERRORS.append(("gen_name", _gn, repr(_e)[:200]))
+# two linked functions whose names differ by the prefix the closure compiler gives to captured globals (g_)
+for _n1, _n2 in (("foo", "g_foo"), ("g_foo", "foo"), ("g_g_x", "g_x"), ("x", "g_g_x"), ("constant_0", "g_constant_0"), ("g_coercer", "coercer"), ("g_func_0", "func_0")):
+    try:
+        _D3 = dataclasses.make_dataclass("GDst3", [("a", int), ("b", int), ("c", Decimal), ("e", int)])
+        GEN_CASES.append((("fn", (_n1, _n2), 0), get_converter(GSrc, _D3, recipe=[link_function(_named_fn(_n1, 100), P[_D3].b), link_constant(P[_D3].c, value=GMARK),
+                                                                                     link_function(_named_fn(_n2, 200), P[_D3].e)]),
+                          lambda a, D=_D3: D(a, a + 100, GMARK, a + 200)))
+    except Exception as _e:
+        NAME_ERRORS.append(("gen_name_pair", _n1, _n2, repr(_e)[:200]))
 NG = max(1, len(GEN_CASES))
 def gen_names(gi, a):
     what, conv, exp = GEN_CASES[pick(gi, NG)]
@@ -215,6 +225,47 @@ def gen_names(gi, a):
         S = list(inspect.signature(conv).parameters.values())[0].annotation
         out = conv(S(a))
     return out == exp(a)
+
+# defaults of extra converter parameters are data: never rendered through their repr, the very objects are the defaults of the result
+import builtins, inspect
+DCANARY = []
+def __DCANARY__(*a, **k):
+    DCANARY.append(a); return 0
+builtins.__DCANARY__ = __DCANARY__
+class _Hostile:
+    def __init__(self, text): self.text = text
+    def __repr__(self): return self.text
+    def __eq__(self, o): return self is o
+    def __hash__(self): return 1
+class _Sentinel: pass
+DEF_POOL = (5, Decimal("1.5"), _Sentinel(), [1], _Hostile("__DCANARY__()"), _Hostile("0)): pass" + chr(10) + "__DCANARY__(" ), _Hostile("x"), _Hostile("src"), _Hostile(""),
+            float("inf"), float("nan"), ..., GMARK, (1, Decimal(2)), _named_fn("f", 1), int)
+@dataclasses.dataclass
+class DefD:
+    a: int
+    c: Any
+    d: Any
+DEF_CONV = []
+for _i, _dv in enumerate(DEF_POOL):
+    try:
+        def _stub(src: GSrc, c: Any = _dv, *, d: Any = _dv) -> DefD: ...
+        DEF_CONV.append(("ok", impl_converter(_stub), _stub))
+    except Exception as _e:
+        DEF_CONV.append(("error", repr(_e)[:200], None)); NAME_ERRORS.append(("param_default", _i, type(_e).__name__, repr(_e)[:160]))
+ND = len(DEF_POOL)
+def param_defaults(di, a, given):
+    st, conv, stub = DEF_CONV[pick(di, ND)]
+    if st != "ok" or DCANARY: return False
+    dv = DEF_POOL[pick(di, ND)]
+    out = conv(GSrc(a))
+    def is_default(v): return v is dv or (type(v) is type(dv) and (v == dv or (v != v and dv != dv)))            # the default object itself, or an equal value of the same type
+    if type(out) is not DefD or out.a != a or not is_default(out.c) or not is_default(out.d): return False
+    out = conv(GSrc(a), given, d=given)
+    if out.c is not given or out.d is not given: return False
+    sig, ssig = inspect.signature(conv), inspect.signature(stub)
+    same_sig = (list(sig.parameters) == list(ssig.parameters) and sig.return_annotation == ssig.return_annotation and
+                all(p.kind == q.kind and p.annotation == q.annotation and p.default is q.default for p, q in zip(sig.parameters.values(), ssig.parameters.values())))
+    return same_sig and sig.parameters["c"].default is dv and not DCANARY
 
 def same_name_nested(x, y):
     out = CONV_SAME(_OutA(_InA(x), y))
@@ -365,7 +416,12 @@ def build(tier, seed):
     mn.ob("names_generated_helpers", "gi: int, a: int", "return gen_names(gi, a)", pre=["0 <= gi < NG"], timeout=tmo,
           family="user function / model names equal to the names the converter generator gives its own helpers",
           bounds="18 names (constant_<n>, func_<n>, accessor_<n>, coercer, _closure_signature, ...) as the name of two linked functions (next to a non-literal constant, "
-                 "a nameless partial and a constant factory, both recipe orders) and as the name of source and destination model; symbolic int")
+                 "a nameless partial and a constant factory, both recipe orders) and as the name of source and destination model; 7 pairs of function names that differ by the "
+                 "prefix of captured globals (foo / g_foo); symbolic int")
+    mn.ob("names_param_defaults", "di: int, a: int, given: int", "return param_defaults(di, a, given)", pre=["0 <= di < ND"], timeout=tmo,
+          family="defaults of extra converter parameters are data (never rendered through repr, never executed); impl_converter keeps the stub's signature",
+          bounds="16 default values (literal, Decimal, sentinel object, list, objects whose repr is a call / breaks out of the def line / shadows a parameter, inf, nan, Ellipsis, "
+                 "tuple with a Decimal, a function, a class) for a positional and a keyword-only parameter; symbolic ints")
     mn.ob("names_same_name_nested", "x: int, y: int", "return same_name_nested(x, y)", timeout=tmo,
           family="different classes sharing one __name__ at two nesting levels (converter, loader, dumper)", bounds="symbolic ints")
     mk = Module("c19_kname").pre("from adaptix import Retort\n")
